@@ -771,6 +771,8 @@ Definition parse_json_body (method : string) (body : option jv) (n : nat) (t : t
    LACKS are added (a nested section is merged, not replaced); a non-object value of the child is taken as is.
    The chain of enclosing objects restarts inside slice / map elements (fillSlice / generateMap call Unmarshal afresh)
    and is empty for a struct filled from the empty object.
+   The merge is done IN PLACE on the decoded document, so the outcome depends on the declaration order of the members
+   (a section merged while an earlier member was processed is inherited in its merged form by a later one).
    The model is a document transformation: `inherit_doc t anc d` writes, at every struct level, the value an `inherit`
    field resolves to under that field's key; the inherit-free model then runs on the result. *)
 Fixpoint inh_lookup (k : string) (chain : list obj) : option jv :=
@@ -803,13 +805,16 @@ Fixpoint inherit_doc (t : ty) (anc : list obj) (d : jv) {struct t} : jv :=
   | Struct fs =>
       match d with
       | JObj m =>
+          (* members are processed in declaration order ON THE SAME MAPS: a merge writes the filled-in entries into the
+             child's section in place (vm[k] = v), so a member processed later -- and every struct below it -- sees the
+             sections as the earlier members left them (`acc`), not as the document had them *)
           JObj (fold_left (fun acc f =>
                   if f_anon f then
                     match inherit_doc (deref (f_ty f)) anc (JObj acc) with JObj acc' => acc' | _ => acc end
                   else
-                    let found := if o_inherit (f_opts f) then inh_lookup (f_key f) (m :: anc) else olookup (f_key f) m in
+                    let found := if o_inherit (f_opts f) then inh_lookup (f_key f) (acc :: anc) else olookup (f_key f) acc in
                     match found with
-                    | Some v => areplace (f_key f) (inherit_doc (f_ty f) (m :: anc) v) acc
+                    | Some v => areplace (f_key f) (inherit_doc (f_ty f) (acc :: anc) v) acc
                     | None => acc
                     end) fs m)
       | _ => d
